@@ -320,7 +320,7 @@ C(f"{F}:Parser.macro_call", params={"self": "obj:Parser", "a": EXPR, "b": "seq[T
            f"all_located(result, {LOCARGS}, a)",
            # the macro scan is over: the tokenizer is back in normal mode for what follows
            "self._tokenizer._call_macro == False"],
-  modifies=["self._tokenizer._call_macro"], raises=[], properties=["C05", "C07", "C12"])
+  modifies=["self._tokenizer._call_macro"], raises=[], properties=["C05", "C07", "C12", "C14"])
 
 C(f"{F}:Parser.handle_with_macro_stmt", params={"self": "obj:Parser", "a": "obj:ast.withitem", "b": "Tok", **LOCS}, inline=INL,
   ensures=["isinstance(result, ast.With) and len(result.items) == 1 and result.items[0] is a",
@@ -329,18 +329,18 @@ C(f"{F}:Parser.handle_with_macro_stmt", params={"self": "obj:Parser", "a": "obj:
            "len(result.body) == 1 and isinstance(result.body[0], ast.Pass)",
            f"all_located(result, {LOCARGS}, old(a.context_expr), a.context_expr.args[1])",
            "self._tokenizer._with_macro == False"],
-  modifies=["self._tokenizer._with_macro", "a.context_expr"], raises=[], properties=["C05", "C07", "C12"])
+  modifies=["self._tokenizer._with_macro", "a.context_expr"], raises=[], properties=["C05", "C07", "C12", "C14"])
 
 # entering a macro: the flag the tokenizer reads for its NEXT token is raised, the node goes through untouched
 for _nm, _flag, _ty in (("handle_func_macro_start", "_call_macro", "obj:PosNode"), ("handle_with_macro_start", "_with_macro", "obj:ast.withitem"), ("handle_proc_macro_start", "_proc_macro", "Tok")):
     C(f"{F}:Parser.{_nm}", params={"self": "obj:Parser", "a": _ty}, ensures=["result is a" if _ty != "Tok" else "result == a", f"self._tokenizer.{_flag} == True"],
-      modifies=[f"self._tokenizer.{_flag}"], raises=[], properties=["C07", "C12"])
+      modifies=[f"self._tokenizer.{_flag}"], raises=[], properties=["C07", "C12", "C14"])
 
 # `$(cmd! raw text)`: one string Constant starting right after the `!`; the scan flag is lowered (the text itself: stand-in of C07)
 C(f"{F}:Parser.proc_macro_arg", params={"self": "obj:Parser", "a": "seq[val]", **LOCS},
   ensures=["isinstance(result, ast.Constant)", "result.lineno == lineno and result.col_offset == old(col_offset) + 1 and result.end_lineno == end_lineno and result.end_col_offset == end_col_offset",
            "self._tokenizer._proc_macro == False"],
-  modifies=["self._tokenizer._proc_macro"], raises=[], properties=["C07", "C12"])
+  modifies=["self._tokenizer._proc_macro"], raises=[], properties=["C07", "C12", "C14"])
 
 C(f"{F}:Parser.set_expr_context", params={"self": "obj:Parser", "node": "obj:ast.Starred", "context": "union[const:Load|const:Store|const:Del]"},
   ensures=["result is node", "node.ctx is context"], modifies=["node.ctx"], raises=[], properties=["C04"])
